@@ -169,6 +169,19 @@ chk(
     "who-may-construct + provenance + offset typestate by dominance / post-dominance + unit (bytes vs chars) and finiteness qualifiers",
 )
 
+chk(
+    "C02",
+    "Partial: the numeric / textual values computed by the builtins are run-time value semantics and are not decided. Decided "
+    "per builtin from the provenance of its results and its call sites: stable ascending sorts (and no unstable sort "
+    "reachable), the order used (String::cmp / partial_cmp, self first), expression references applied per element and paired "
+    "with that element, extreme-element selection discipline of max_by/min_by/max/min, right-biased merge, pairwise "
+    "keys/values, length/reverse by code points, avg's empty guard and sum/length quotient, map's unconditional push, "
+    "not_null's first non-null, argument order of the string predicates and join, to_array/to_string/to_number/type case "
+    "tables, and the declared result kinds (return-tag analysis).",
+    "Trusted: documented behaviour of the std operations named in the rows; numeric results and JSON encoding of to_string.",
+    "per-builtin provenance patterns + dominance + who-may-call (stable sort) + return-tag analysis",
+)
+
 for pid in [f"C{n:02d}" for n in range(1, 19)]:
     if pid not in CHECKS and pid not in NOT_APPLICABLE:
         na(pid, "check not implemented yet in this revision of /verif (work in progress; see DESIGN.md §3)")
